@@ -120,7 +120,7 @@ def run(ctx):
     ctx.oblige('validation: %d node evaluations of the real code lie within 2^-%d (relative) of the regenerated model operator, '
                'proved by Interval (%d undecided)' % (len(cases) - len(und), TAU_BITS, len(und)), not bad,
                'cases proved OUTSIDE the tolerance: %s' % [cases[b] for b in bad[:3]])
-    ctx.oblige('validation: Interval decides at least 90%% of the sampled cases', len(und) * 10 <= len(cases),
+    ctx.oblige('validation: Interval decides at least 90% of the sampled cases', len(und) * 10 <= len(cases),
                'undecided: %s' % [cases[u] for u in und[:3]])
     for b in bad[:3]:
         c = cases[b]
